@@ -134,6 +134,48 @@ def etree_iter_strings(elem: Union[DocumentProtocol, ElementProtocol],
                 yield e.tail
 
 
+def etree_iter_text(elem: Union[DocumentProtocol, ElementProtocol],
+                    normalize: bool = False) -> Iterator[str]:
+    """
+    Yields the strings of the text nodes below the element (or below the root of the document)
+    in document order: the text of an element, then the strings of its children, each child
+    followed by its tail. Unlike `etree_iter_strings`, that yields the tail of an element before
+    the text of its descendants, the concatenation is the string value of the node. Comments and
+    processing instructions contribute only their tail (nothing with *normalize*). With
+    *normalize* the text of the root and the tails of its children are stripped.
+    """
+    e: ElementProtocol
+    root: Any = cast(DocumentProtocol, elem).getroot() if hasattr(elem, 'getroot') else elem
+    if root is None or callable(root.tag):
+        return
+    if root.text is not None:
+        yield root.text.strip() if normalize else root.text
+
+    children: Iterator[Any] = iter(root)
+    iterators: list[Any] = []  # the pending (siblings iterator, parent) pairs, no recursion
+    parent = root
+    while True:
+        for e in children:
+            if not callable(e.tag):
+                if e.text is not None:
+                    yield e.text
+                if len(e):
+                    iterators.append((children, parent))
+                    children, parent = iter(e), e
+                    break
+            elif normalize:
+                continue  # element-only content: nothing for a comment or PI
+            if e.tail is not None:
+                yield e.tail.strip() if normalize and parent is root else e.tail
+        else:
+            if not iterators:
+                return
+            e = parent  # the element just closed: its tail follows its descendants
+            children, parent = iterators.pop()
+            if e.tail is not None:
+                yield e.tail.strip() if normalize and parent is root else e.tail
+
+
 def etree_deep_equal(e1: ElementProtocol, e2: ElementProtocol) -> bool:
     if e1.tag != e2.tag:
         return False
@@ -297,5 +339,5 @@ def etree_tostring(elem: ElementType,
 
 __all__ = ['SafeExpatParser', 'defuse_xml', 'is_etree_element', 'is_lxml_etree_element',
            'is_etree_element_instance', 'is_etree_document', 'is_lxml_etree_document',
-           'is_etree_document_instance', 'etree_iter_strings', 'etree_deep_equal',
-           'etree_iter_paths', 'etree_tostring']
+           'is_etree_document_instance', 'etree_iter_strings', 'etree_iter_text',
+           'etree_deep_equal', 'etree_iter_paths', 'etree_tostring']
